@@ -325,6 +325,16 @@ def rule_structural_discharges(ctx):
             o["key"] = "PANIC-TAB:DOM:" + o["key"]
             o["rule"] = "PANIC-TAB"
             ctx.obls.append(o)
+    # WINDOW: `s[0]`, `s[1]` in Display for Problem index the windows of length 2 of the sorted symbol list (every window has two elements;
+    # `chunks(2)` would leave a last chunk of one): the chain obligations of C12
+    from . import c12 as _c12
+    sub12 = type(ctx)(ctx.prop, ctx.tier, ctx.facts)
+    _c12.rule_chain(sub12)
+    for o in sub12.obls:
+        o = dict(o)
+        o["key"] = "PANIC-TAB:WINDOW:" + o["key"]
+        o["rule"] = "PANIC-TAB"
+        ctx.obls.append(o)
     # CONSTARG: binop arguments
     val = fx.fn("tau_star::val")
     for fn, allowed in (("tau_star::construct_total_function_formula", {"Add", "Subtract", "Multiply"}), ("tau_star::construct_partial_function_formula", {"Divide", "Modulo"})):
